@@ -17,7 +17,9 @@ for r in rows:
 w1 = [r for r in rows if r[0][-1] in 'AB']
 w2 = [r for r in rows if r[0][-1] in 'CD']
 w3 = [r for r in rows if r[0][-1] in 'EF']
-for name, w in (('wave 1 (A/B)', w1), ('wave 2 (C/D)', w2), ('wave 3 (E/F)', w3)):
+w4 = [r for r in rows if r[0][-1] in 'GH']
+w5 = [r for r in rows if r[0][-1] in 'IJ']
+for name, w in (('wave 1 (A/B)', w1), ('wave 2 (C/D)', w2), ('wave 3 (E/F)', w3), ('wave 4 (G/H)', w4), ('wave 5 (I/J)', w5)):
     if w:
         print('\n%s: %d changes, %d detected at first evaluation, %d detected now' % (
             name, len(w), sum(1 for r in w if r[1] == 'yes'), sum(1 for r in w if r[2] != '-')))
